@@ -301,7 +301,11 @@ def c20_e(ctx):
         raise AnchorMissing('proposal function is never called')
     ir = callers[0]
     ex = ctx.ex(ir)
-    _fin = 'np.isfinite(self.prior.logpdf(self.{}()))'.format(P.name)
+    # the log prior of the candidate, as computed or with its element selected (C20-p)
+    _lp = 'self.prior.logpdf(self.{}())'.format(P.name)
+    _fin = tuple('np.isfinite({})'.format(w.format(_lp)) for w in (
+        '{}', 'float(np.squeeze({}))', 'np.squeeze({})', 'float({}[0])', '{}[0]',
+        '{}.item()', 'float({}.item())', 'float(np.squeeze({})[()])'))
     tests = [n for n in own_nodes(ir.node) if isinstance(n, ast.If) and
              if_branches(ex, n, _fin) is not None]
     if not tests:
@@ -325,8 +329,9 @@ def c20_e(ctx):
               'collection round', fn=ir, node=t)
     lp = [s for s in t_body if isinstance(s, ast.Assign) and
           match(ex.term(s.targets[0]), pattern("self.state['logprior'][_]")) is not None and
-          match(ex.term(s.value), pattern('self.prior.logpdf(self.{}())'.format(P.name)))
-          is not None]
+          match_any(ex.term(s.value), tuple(w.format(_lp) for w in (
+              '{}', 'float(np.squeeze({}))', 'np.squeeze({})', 'float({}[0])', '{}[0]',
+              '{}.item()', 'float({}.item())'))) is not None]
     ctx.check(bool(lp), ir, 'candidate log prior recorded', 'logprior[n] = prior.logpdf(candidate)',
               'the log prior of the accepted candidate is not recorded', fn=ir, node=t)
     # reject branch: copy previous, advance, no break
@@ -1374,3 +1379,79 @@ _C20_GUARDS = [
 def c20_o(ctx):
     from .base import check_guard_table
     check_guard_table(ctx, _C20_GUARDS)
+
+
+def _scalarised(t, batch_calls):
+    """Does every occurrence of a batch-shaped call inside term t sit directly under a scalar
+    conversion (float(np.squeeze(.)), float(.[0]), .item(), np.squeeze(.)[()], .[0])?"""
+    CONV_CALLS = (('global', 'builtins.float'), ('global', 'float'), ('name', 'float'),
+                  ('global', 'numpy.squeeze'))
+
+    def walk(x, under):
+        if not isinstance(x, tuple) or not x:
+            return True
+        if any(match(x, p) is not None for p in batch_calls):
+            return under
+        if x[0] == 'call' and x[1] in CONV_CALLS and len(x[2]) == 1:
+            # float(np.squeeze(call)) - only a selection (squeeze / [0] / item) makes float() safe
+            inner = x[2][0]
+            if x[1] in (('global', 'numpy.squeeze'),):
+                return walk(inner, True)
+            return walk(inner, under)
+        if x[0] == 'sub' and x[2][0] == 'const' and isinstance(x[2][1], int):
+            return walk(x[1], True)
+        if x[0] == 'call' and x[1][0] == 'attr' and x[1][2] in ('item', 'squeeze') and not x[2]:
+            return walk(x[1][1], True)
+        if x[0] == 'phi':
+            return all(walk(a, under) for a in x[1])
+        ok = True
+        for c in x[1:]:
+            if isinstance(c, tuple):
+                if c and isinstance(c[0], str):
+                    ok = ok and walk(c, False)
+                else:
+                    for d in c:
+                        if isinstance(d, tuple):
+                            if d and isinstance(d[0], str):
+                                ok = ok and walk(d, False)
+                            else:
+                                for e in d:
+                                    if isinstance(e, tuple) and e and isinstance(e[0], str):
+                                        ok = ok and walk(e, False)
+        return ok
+    return walk(t, False)
+
+
+@obligation('C20-p', 'T12', 'the chain state\'s scalar slots receive scalars: a batch-shaped result '
+            '(prior log density of a (1, d) point, synthetic likelihood returned as a one-element '
+            'array) has its element selected before it is stored', floor=3,
+            necessary='with the installed numpy, storing a one-element array into an array '
+                      'element raises ("setting an array element with a sequence"): no BSL chain '
+                      'can be started, let alone satisfy the acceptance rule')
+def c20_p(ctx):
+    ctx.fact('numpy >= 2.x: a[i] = b raises for an array b with ndim > 0 (also of one element); '
+             'ModelPrior.logpdf of a (1, d) input and the synthetic likelihoods '
+             '(np.array([loglik])) return one-element arrays')
+    cls = ctx.cls(_BSLC)
+    batch_calls = (pattern('self.prior.logpdf(_)'), pattern('self.likelihood(*_)'))
+    n = 0
+    for m in cls.methods.values():
+        ex = ctx.ex(m)
+        for key in ('logprior', 'logposterior'):
+            for (s, t, k) in ctx.stores(m, "self.state['{}'][_]".format(key)):
+                if not isinstance(s, ast.Assign):
+                    continue
+                v = ex.term(s.value)
+                if not any(find(v, p) is not None for p in batch_calls):
+                    continue
+                n += 1
+                ctx.check(_scalarised(v, batch_calls), m,
+                          'scalar stored into state[{!r}]'.format(key),
+                          'float(np.squeeze(<batch result>)) before the store',
+                          '`{}` stores a one-element array (result of prior.logpdf / the '
+                          'synthetic likelihood) into a scalar slot: ValueError with the '
+                          'installed numpy, every BSL run stops here'.format(src(s)[:70]), fn=m,
+                          node=s)
+    if n < 3:
+        ctx.undecided('expected at least 3 stores of batch results into the chain state, found '
+                      '{}'.format(n))
